@@ -34,6 +34,7 @@ type NATLogEntry struct {
 	PrivatePort  uint16    `json:"private_port,omitempty"`
 	PublicIP     string    `json:"public_ip"`
 	PublicPort   uint16    `json:"public_port,omitempty"`
+	PortEnd      uint16    `json:"port_end,omitempty"` // last port of the block ("allocate" records; public_port is the first)
 	Protocol     string    `json:"protocol,omitempty"` // "tcp", "udp", "icmp"
 	DestIP       string    `json:"dest_ip,omitempty"`
 	DestPort     uint16    `json:"dest_port,omitempty"`
@@ -202,6 +203,7 @@ func (l *Logger) LogAllocation(alloc *Allocation) {
 			PrivateIP:    alloc.PrivateIP.String(),
 			PublicIP:     alloc.PublicIP.String(),
 			PublicPort:   alloc.PortStart, // Port range start
+			PortEnd:      alloc.PortEnd,   // Port range end
 		}
 		l.addEntry(entry)
 	}
